@@ -81,7 +81,14 @@ func NewStrListDecoder(reuseRecords bool) *StrListDecoder {
 	return d
 }
 
+// maxPrealloc caps how many elements are pre-allocated from a count read from
+// (possibly hostile) input; slices grow as elements are actually decoded.
+const maxPrealloc = 1024
+
 func (d *StrListDecoder) strSlice(n uint32) []string {
+	if n > maxPrealloc {
+		n = maxPrealloc
+	}
 	if d.strs != nil {
 		if n > uint32(cap(d.strs)) {
 			d.strs = make([]string, 0, n)
